@@ -223,12 +223,13 @@ class Bests(Part):
             pools = [absx.monotone_map(rng, rng.randint(3, 6)) for _ in range(m)]
             trace = []
             vpool = [[rng.random() * 4, rng.random() * 4] for _ in range(rng.choice([1, 2, 3, 1000]))]
+            mstyle_g = rng.randrange(3)
             for g in range(case["gens"]):
                 swarm = []
                 for k in range(n):
                     # particles may sit on the same design vector with different costs (noisy / stateful objectives)
                     ind = Individual(list(rng.choice(vpool)))
-                    ind.costs_signed = [rng.choice(p) for p in pools] + [rng.random() < 0.15]
+                    ind.costs_signed = [rng.choice(p) for p in pools] + [absx.concrete_marker(rng, rng.choice([0, 0, 0, 0, 0, 0, 1, -1, 2, -2]), mstyle_g)]
                     ind.costs = list(ind.costs_signed[:-1])
                     ind.features.update({'dominate': [], 'crowding_distance': 0, 'domination_counter': 0, 'front_number': 0})
                     swarm.append(ind)
